@@ -48,7 +48,12 @@ Qed.
 Definition holder (p : pc) : bool :=
   match p with PRecheck | PFind | PSetID _ | PWrite _ | PUnlock _ | PUnlockErr _ => true | _ => false end.
 Definition owned (p : pc) : option nat :=
-  match p with PWrite k | PUnlock k | PDoneOk k => Some k | _ => None end.
+  match p with PWrite k | PUnlock k | PDoneOk k | PDeadW k | PDeadOk k => Some k | _ => None end.
+(* the index holds the id, the .PASSWDS record is not written (yet / and never will be) *)
+Definition writing (p : pc) : option nat :=
+  match p with PWrite k | PDeadW k => Some k | _ => None end.
+Definition dead (p : pc) : bool :=
+  match p with PDead | PDeadW _ | PDeadOk _ => true | _ => false end.
 Definition finished (p : pc) : bool :=
   match p with PDoneOk _ | PDoneErr _ => true | _ => false end.
 Definition passed (p : pc) : bool :=
@@ -65,8 +70,10 @@ Record Inv (s : st) : Prop := {
   I_set : forall t k, pcs s t = PSetID k -> (k < nslots c)%nat /\ idx s k = [] /\ init k = [];
   I_one : forall t t' k, owned (pcs s t) = Some k -> owned (pcs s t') = Some k -> t = t';
   I_frame : forall k, (exists t, owned (pcs s t) = Some k) \/ idx s k = init k;
-  I_pwd : forall k, (forall t, pcs s t <> PWrite k) -> pwd s k = idx s k;
-  I_cnt : semv s = match sem s with None => 1%nat | Some _ => 0%nat end     (* the counter: 1 = free, 0 = taken, never more *)
+  I_pwd : forall k, (forall t, writing (pcs s t) <> Some k) -> pwd s k = idx s k;
+  I_cnt : semv s = match sem s with None => 1%nat | Some _ => 0%nat end;    (* the counter: 1 = free, 0 = taken, never more *)
+  I_adj : forall p, adj s p = match sem s with Some h => if Nat.eqb (proc c h) p then 1 else 0 | None => 0 end
+                                                                            (* SEM_UNDO: 1 for the process inside, else 0 *)
 }.
 
 Lemma init_inv : Inv (init_st init).
@@ -81,46 +88,126 @@ Ltac upd t0 t :=
   destruct (Nat.eq_dec t0 t) as [->|?];
   [rewrite ?updf_same in * | rewrite ?updf_other in * by assumption].
 
-(* a step that only moves thread t between program counters with the same [owned] value, neither of which is
-   PSetID / PWrite-sensitive, and leaves the tables alone *)
-Lemma pc_only_inv s t p sm :
+(* any change of the program counters (of one thread or of many at once: a process going away) that keeps what each
+   thread owns and is in the middle of writing, puts nobody new at PSetID and leaves the tables alone *)
+Lemma pcs_change_inv s pcs' sm sv ad :
+  Inv s ->
+  (forall t, owned (pcs' t) = owned (pcs s t)) ->
+  (forall t, writing (pcs' t) = writing (pcs s t)) ->
+  (forall t k, pcs' t = PSetID k -> (k < nslots c)%nat /\ idx s k = [] /\ init k = []) ->
+  (forall t0, sm = Some t0 <-> holder (pcs' t0) = true) ->
+  sv = match sm with None => 1%nat | Some _ => 0%nat end ->
+  (forall q, ad q = match sm with Some h => if Nat.eqb (proc c h) q then 1 else 0 | None => 0 end) ->
+  Inv (mkSt pcs' sm sv (idx s) (pwd s) ad).
+Proof.
+  intros I Ho Hw Hs Hsem Hsv Had. constructor; cbn [pcs sem semv idx pwd adj].
+  - exact Hsem.
+  - intros t0 k. rewrite Ho. apply (I_own s I).
+  - exact Hs.
+  - intros t0 t1 k. rewrite !Ho. apply (I_one s I).
+  - intros k. destruct (I_frame s I k) as [[t0 H0]|H0]; [left|right; exact H0].
+    exists t0. rewrite Ho. exact H0.
+  - intros k Hk. apply (I_pwd s I). intros t0. rewrite <- Hw. apply Hk.
+  - exact Hsv.
+  - exact Had.
+Qed.
+
+(* a step that only moves thread t between program counters with the same [owned] and [writing] values *)
+Lemma pc_only_inv s t p sm sv ad :
   Inv s ->
   owned p = owned (pcs s t) ->
-  (forall k, p <> PWrite k) -> (forall k, pcs s t <> PWrite k) ->
+  writing p = writing (pcs s t) ->
   (forall k, p = PSetID k -> (k < nslots c)%nat /\ idx s k = [] /\ init k = []) ->
   (forall t0, sm = Some t0 <-> holder (updf (pcs s) t p t0) = true) ->
-  forall sv, sv = match sm with None => 1%nat | Some _ => 0%nat end ->
-  Inv (mkSt (updf (pcs s) t p) sm sv (idx s) (pwd s)).
+  sv = match sm with None => 1%nat | Some _ => 0%nat end ->
+  (forall q, ad q = match sm with Some h => if Nat.eqb (proc c h) q then 1 else 0 | None => 0 end) ->
+  Inv (mkSt (updf (pcs s) t p) sm sv (idx s) (pwd s) ad).
 Proof.
-  intros I Ho Hw Hw' Hs Hsem sv Hsv. constructor; cbn [pcs sem semv idx pwd].
-  - exact Hsem.
-  - intros t0 k. upd t0 t; [rewrite Ho|]; apply (I_own s I).
+  intros I Ho Hw Hs Hsem Hsv Had. apply pcs_change_inv; try assumption.
+  - intros t0. upd t0 t; [exact Ho|reflexivity].
+  - intros t0. upd t0 t; [exact Hw|reflexivity].
   - intros t0 k. upd t0 t; [apply Hs|apply (I_set s I)].
-  - intros t0 t1 k. upd t0 t; upd t1 t; try reflexivity; rewrite ?Ho; apply (I_one s I).
-  - intros k. destruct (I_frame s I k) as [[t0 H0]|H0]; [left|right; exact H0].
-    exists t0. upd t0 t; [rewrite Ho|]; exact H0.
-  - intros k Hk. apply (I_pwd s I). intros t0. destruct (Nat.eq_dec t0 t) as [->|N]; [apply Hw'|].
-    specialize (Hk t0). rewrite updf_other in Hk by assumption. exact Hk.
-  - exact Hsv.
 Qed.
+
+Lemma kill_owned p : owned (kill p) = owned p.
+Proof. destruct p; reflexivity. Qed.
+Lemma kill_writing p : writing (kill p) = writing p.
+Proof. destruct p; reflexivity. Qed.
+Lemma kill_holder p : holder (kill p) = false.
+Proof. destruct p; reflexivity. Qed.
+Lemma kill_not_setid p k : kill p <> PSetID k.
+Proof. destruct p; discriminate. Qed.
+Lemma kill_passed p : passed (kill p) = false.
+Proof. destruct p; reflexivity. Qed.
 
 Lemma sem_keep s t p : Inv s -> holder p = holder (pcs s t) ->
   forall t0, sem s = Some t0 <-> holder (updf (pcs s) t p t0) = true.
 Proof. intros I Hh t0. upd t0 t; [rewrite Hh|]; apply (I_sem s I). Qed.
 
+Lemma join_inv s p s' : Inv s -> step_join s p = Some s' -> Inv s'.
+Proof.
+  intros I H. unfold step_join, passwd_init in H. inversion H; subst; clear H.
+  destruct I as [I1 I2 I3 I4 I5 I6 I7 I8]. constructor; assumption.
+Qed.
+
+(* a process goes away: its calls stop where they are, the kernel adds its adjustment to the semaphore *)
+Lemma die_inv s p s' : Inv s -> step_die c s p = Some s' -> Inv s'.
+Proof.
+  intros I H. unfold step_die in H. inversion H; subst; clear H.
+  pose proof (I_adj s I p) as Hp. pose proof (I_cnt s I) as Hc.
+  apply pcs_change_inv; try assumption.
+  - intros t. destruct (Nat.eqb (proc c t) p); [apply kill_owned|reflexivity].
+  - intros t. destruct (Nat.eqb (proc c t) p); [apply kill_writing|reflexivity].
+  - intros t k. destruct (Nat.eqb (proc c t) p); [intros E; exfalso; exact (kill_not_setid _ _ E)|apply (I_set s I)].
+  - intros t0. destruct (sem s) as [h|] eqn:Eh.
+    + assert (Hh : holder (pcs s h) = true) by (apply (I_sem s I); exact Eh).
+      destruct (Nat.eqb_spec (proc c h) p) as [Ehp|Nhp].
+      * split; [discriminate|]. destruct (Nat.eqb_spec (proc c t0) p) as [E0|N0]; [rewrite kill_holder; discriminate|].
+        intros H0. exfalso. apply N0. rewrite (holder_unique s t0 h I H0 Hh). exact Ehp.
+      * destruct (Nat.eqb_spec (proc c t0) p) as [E0|N0].
+        -- rewrite kill_holder. split; [|discriminate]. intros E; inversion E; subst t0. contradiction.
+        -- rewrite <- Eh. apply (I_sem s I).
+    + split; [discriminate|]. destruct (Nat.eqb (proc c t0) p); [rewrite kill_holder; discriminate|].
+      intros H0. apply (I_sem s I) in H0. congruence.
+  - rewrite Hp, Hc. destruct (sem s) as [h|]; [|reflexivity]. destruct (Nat.eqb (proc c h) p); reflexivity.
+  - intros q. unfold updf. pose proof (I_adj s I q) as Hq.
+    destruct (Nat.eqb_spec q p) as [->|Nq].
+    + destruct (sem s) as [h|]; [|reflexivity]. destruct (Nat.eqb_spec (proc c h) p) as [E|N]; [reflexivity|].
+      destruct (Nat.eqb_spec (proc c h) p); [contradiction|reflexivity].
+    + rewrite Hq. destruct (sem s) as [h|]; [|reflexivity].
+      destruct (Nat.eqb_spec (proc c h) p) as [E|N]; [|reflexivity].
+      destruct (Nat.eqb_spec (proc c h) q); [congruence|reflexivity].
+Qed.
+
+Lemma adj_lock s t : Inv s -> sem s = None ->
+  forall q, adj_op c s t 1 q = if Nat.eqb (proc c t) q then 1 else 0.
+Proof.
+  intros I Eo q. unfold adj_op, updf. pose proof (I_adj s I) as Ha. rewrite Eo in Ha. rewrite !Ha.
+  destruct (Nat.eqb_spec q (proc c t)); destruct (Nat.eqb_spec (proc c t) q); try congruence; reflexivity.
+Qed.
+
+Lemma adj_unlock s t : Inv s -> sem s = Some t -> forall q, adj_op c s t (-1) q = 0.
+Proof.
+  intros I Es q. unfold adj_op, updf. pose proof (I_adj s I) as Ha. rewrite Es in Ha. rewrite !Ha, Nat.eqb_refl.
+  destruct (Nat.eqb_spec q (proc c t)); [reflexivity|]. destruct (Nat.eqb_spec (proc c t) q); [congruence|reflexivity].
+Qed.
+
 Lemma step_inv s a s' : Inv s -> step c s a = Some s' -> Inv s'.
 Proof.
-  intros I Hstep. destruct a as [t|t]; cbn [step] in Hstep.
+  intros I Hstep. destruct a as [t|t|p|p]; cbn [step] in Hstep.
   2:{ (* interrupted wait *)
     unfold step_intr in Hstep. destruct (pcs s t) eqn:Ept; try discriminate. inversion Hstep; subst; clear Hstep.
     unfold set_pc. apply pc_only_inv; try assumption; try (rewrite Ept; reflexivity); try (intros; congruence).
     - apply sem_keep; [exact I|rewrite Ept; reflexivity].
-    - exact (I_cnt s I). }
+    - exact (I_cnt s I).
+    - exact (I_adj s I). }
+  2:{ exact (join_inv s p s' I Hstep). }
+  2:{ exact (die_inv s p s' I Hstep). }
   unfold step_thread in Hstep. destruct (pcs s t) eqn:Ept.
   - (* PCheck *)
     destruct (exists_id (nslots c) (idx s) (uid c t)); inversion Hstep; subst; clear Hstep; unfold set_pc;
       (apply pc_only_inv; try assumption; try (rewrite Ept; reflexivity); try (intros; congruence);
-       [apply sem_keep; [exact I|rewrite Ept; reflexivity]|exact (I_cnt s I)]).
+       [apply sem_keep; [exact I|rewrite Ept; reflexivity]|exact (I_cnt s I)|exact (I_adj s I)]).
   - (* PLock: take the semaphore if it is free *)
     destruct (semv s) as [|v] eqn:Ev; [discriminate|]. inversion Hstep; subst; clear Hstep.
     pose proof (I_cnt s I) as Hc. rewrite Ev in Hc.
@@ -128,14 +215,14 @@ Proof.
     assert (Hnoholder : forall t0, holder (pcs s t0) = false).
     { intros t0. destruct (holder (pcs s t0)) eqn:E; [|reflexivity]. apply (I_sem s I) in E. congruence. }
     apply pc_only_inv; try assumption; try (rewrite Ept; destruct (recheck c); reflexivity);
-      try (intros; destruct (recheck c); congruence).
+      try (intros; destruct (recheck c); congruence); try (apply adj_lock; assumption); try reflexivity.
     intros t0. upd t0 t.
     + split; [intros _; destruct (recheck c); reflexivity|reflexivity].
     + rewrite Hnoholder. split; [intros H; inversion H; congruence|discriminate].
   - (* PRecheck *)
     destruct (exists_id (nslots c) (idx s) (uid c t)); inversion Hstep; subst; clear Hstep; unfold set_pc;
       (apply pc_only_inv; try assumption; try (rewrite Ept; reflexivity); try (intros; congruence);
-       [apply sem_keep; [exact I|rewrite Ept; reflexivity]|exact (I_cnt s I)]).
+       [apply sem_keep; [exact I|rewrite Ept; reflexivity]|exact (I_cnt s I)|exact (I_adj s I)]).
   - (* PFind *)
     destruct (find_empty (nslots c) (idx s)) as [k|] eqn:Ef; inversion Hstep; subst; clear Hstep; unfold set_pc.
     + apply pc_only_inv; try assumption; try (rewrite Ept; reflexivity); try (intros; congruence).
@@ -145,15 +232,17 @@ Proof.
         destruct (I_own s I t0 k H0) as (_ & Hid & _). exfalso. apply (Hids t0). congruence.
       * apply sem_keep; [exact I|rewrite Ept; reflexivity].
       * exact (I_cnt s I).
+      * exact (I_adj s I).
     + apply pc_only_inv; try assumption; try (rewrite Ept; reflexivity); try (intros; congruence).
       * apply sem_keep; [exact I|rewrite Ept; reflexivity].
       * exact (I_cnt s I).
+      * exact (I_adj s I).
   - (* PSetID k: the index now says slot k holds this id *)
     inversion Hstep; subst; clear Hstep.
     destruct (I_set s I t k Ept) as (Hlt & Hempty & Hinit).
     assert (Hnoown : forall t0, owned (pcs s t0) <> Some k).
     { intros t0 H0. destruct (I_own s I t0 k H0) as (_ & Hid & _). apply (Hids t0). congruence. }
-    constructor; cbn [pcs sem semv idx pwd].
+    constructor; cbn [pcs sem semv idx pwd adj].
     + apply sem_keep; [exact I|rewrite Ept; reflexivity].
     + intros t0 k0. upd t0 t.
       * cbn. intros H; inversion H; subst k0. rewrite updf_same. repeat split; assumption.
@@ -171,14 +260,15 @@ Proof.
         exists t0. upd t0 t; [rewrite Ept in H0; discriminate|exact H0].
     + intros k0 Hk0. destruct (Nat.eq_dec k0 k) as [->|Nk].
       * exfalso. apply (Hk0 t). rewrite updf_same. reflexivity.
-      * rewrite updf_other by assumption. apply (I_pwd s I). intros t0. upd t0 t; [congruence|].
+      * rewrite updf_other by assumption. apply (I_pwd s I). intros t0. upd t0 t; [rewrite Ept; discriminate|].
         specialize (Hk0 t0). rewrite updf_other in Hk0 by assumption. exact Hk0.
     + exact (I_cnt s I).
+    + exact (I_adj s I).
   - (* PWrite k: the record goes to .PASSWDS *)
     inversion Hstep; subst; clear Hstep.
     assert (Hown : owned (pcs s t) = Some k) by (rewrite Ept; reflexivity).
     destruct (I_own s I t k Hown) as (Hlt & Hid & Hinit).
-    constructor; cbn [pcs sem semv idx pwd].
+    constructor; cbn [pcs sem semv idx pwd adj].
     + apply sem_keep; [exact I|rewrite Ept; reflexivity].
     + intros t0 k0. upd t0 t; [cbn; rewrite <- Hown|]; apply (I_own s I).
     + intros t0 k0. upd t0 t; [discriminate|apply (I_set s I)].
@@ -187,25 +277,31 @@ Proof.
       exists t0. upd t0 t; [cbn [owned]; rewrite <- Hown|]; exact H0.
     + intros k0 Hk0. destruct (Nat.eq_dec k0 k) as [->|Nk].
       * rewrite updf_same. symmetry. exact Hid.
-      * rewrite updf_other by assumption. apply (I_pwd s I). intros t0. upd t0 t; [congruence|].
+      * rewrite updf_other by assumption. apply (I_pwd s I). intros t0. upd t0 t; [rewrite Ept; cbn; congruence|].
         specialize (Hk0 t0). rewrite updf_other in Hk0 by assumption. exact Hk0.
     + exact (I_cnt s I).
+    + exact (I_adj s I).
   - (* PUnlock k *)
     inversion Hstep; subst; clear Hstep.
+    assert (Es : sem s = Some t) by (apply (I_sem s I); rewrite Ept; reflexivity).
     assert (Hheld : semv s = 0%nat).
-    { pose proof (I_cnt s I) as Hc. assert (Es : sem s = Some t) by (apply (I_sem s I); rewrite Ept; reflexivity).
-      rewrite Es in Hc. exact Hc. }
-    apply pc_only_inv; try assumption; try (rewrite Ept; reflexivity); try (intros; congruence).
+    { pose proof (I_cnt s I) as Hc. rewrite Es in Hc. exact Hc. }
+    apply pc_only_inv; try assumption; try (rewrite Ept; reflexivity); try (intros; congruence);
+      try (apply adj_unlock; assumption); try (rewrite Hheld; reflexivity).
     intros t0. upd t0 t; [cbn; split; discriminate|].
     split; [discriminate|]. intros Hh. exfalso. apply n. apply (holder_unique s t0 t I Hh). rewrite Ept. reflexivity.
   - (* PUnlockErr *)
     inversion Hstep; subst; clear Hstep.
+    assert (Es : sem s = Some t) by (apply (I_sem s I); rewrite Ept; reflexivity).
     assert (Hheld : semv s = 0%nat).
-    { pose proof (I_cnt s I) as Hc. assert (Es : sem s = Some t) by (apply (I_sem s I); rewrite Ept; reflexivity).
-      rewrite Es in Hc. exact Hc. }
-    apply pc_only_inv; try assumption; try (rewrite Ept; reflexivity); try (intros; congruence).
+    { pose proof (I_cnt s I) as Hc. rewrite Es in Hc. exact Hc. }
+    apply pc_only_inv; try assumption; try (rewrite Ept; reflexivity); try (intros; congruence);
+      try (apply adj_unlock; assumption); try (rewrite Hheld; reflexivity).
     intros t0. upd t0 t; [cbn; split; discriminate|].
     split; [discriminate|]. intros Hh. exfalso. apply n. apply (holder_unique s t0 t I Hh). rewrite Ept. reflexivity.
+  - discriminate.
+  - discriminate.
+  - discriminate.
   - discriminate.
   - discriminate.
 Qed.
@@ -264,7 +360,8 @@ Proof.
   - destruct (sem s) as [o|] eqn:E; [|reflexivity]. apply (I_sem _ I) in E.
     destruct (Q o) as [H|H]; [rewrite H in E; discriminate|]. destruct (pcs s o); discriminate.
   - intros k. split.
-    + apply (I_pwd _ I). intros t E. destruct (Q t) as [H|H]; rewrite E in H; discriminate.
+    + apply (I_pwd _ I). intros t E. destruct (Q t) as [H|H]; [rewrite H in E; discriminate|].
+      destruct (pcs s t); discriminate.
     + destruct (I_frame _ I k) as [[t H0]|H0].
       * left. exists t. destruct (I_own _ I t k H0) as (_ & H2 & H3).
         destruct (Q t) as [H|H]; [rewrite H in H0; discriminate|].
@@ -329,11 +426,12 @@ Proof.
   - subst s'. apply (sem_counter (unmark zs)).
 Qed.
 
-(* no deadlock: while some call has not returned, some thread can move *)
+(* no deadlock: while some call has neither returned nor lost its process, some thread can move - in particular a call
+   waiting for the semaphore is never stuck behind a holder whose process went away *)
 Theorem progress sch t : let s := run c sch (init_st init) in
-  finished (pcs s t) = false -> exists t', step c s (Step t') <> None.
+  finished (pcs s t) = false -> dead (pcs s t) = false -> exists t', step c s (Step t') <> None.
 Proof.
-  cbv zeta. intros Hf. pose proof (reachable_inv sch) as I. set (s := run c sch (init_st init)) in *.
+  cbv zeta. intros Hf Hd. pose proof (reachable_inv sch) as I. set (s := run c sch (init_st init)) in *.
   destruct (step c s (Step t)) eqn:E; [exists t; congruence|].
   cbn [step] in E. unfold step_thread in E. destruct (pcs s t) eqn:Ept; try discriminate.
   - destruct (exists_id _ _ _); discriminate.
@@ -345,6 +443,92 @@ Proof.
       try (destruct (exists_id _ _ _); discriminate); try (destruct (find_empty _ _); discriminate).
   - destruct (exists_id _ _ _); discriminate.
   - destruct (find_empty _ _); discriminate.
+Qed.
+
+(* ------------------------------------------------------------------ processes joining and going away *)
+
+Lemma run_snoc sch a s : run c (sch ++ [a]) s = step_skip c (run c sch s) a.
+Proof. unfold run. rewrite fold_left_app. reflexivity. Qed.
+
+(* SEM_UNDO: in every reachable state the adjustment the kernel holds for a process is 1 if the call inside the lock
+   belongs to it and 0 otherwise - so a process going away gives the semaphore back when, and only when, it held it *)
+Theorem undo_adjustment sch p : let s := run c sch (init_st init) in
+  (forall t, holder (pcs s t) = true -> adj s p = if Nat.eqb (proc c t) p then 1 else 0) /\
+  ((forall t, holder (pcs s t) = false) -> adj s p = 0).
+Proof.
+  cbv zeta. pose proof (reachable_inv sch) as I. set (s := run c sch (init_st init)) in *.
+  pose proof (I_adj _ I p) as Ha. split.
+  - intros t Ht. apply (I_sem _ I) in Ht. rewrite Ht in Ha. exact Ha.
+  - intros Hn. destruct (sem s) as [h|] eqn:E; [|exact Ha]. apply (I_sem _ I) in E. rewrite Hn in E. discriminate.
+Qed.
+
+(* a process starting (PasswdInit on the attach path) in any reachable state: always possible, changes nothing; in
+   particular a lock that is held stays held *)
+Theorem join_keeps_lock sch p : let s := run c sch (init_st init) in
+  exists s', step c s (Join p) = Some s' /\
+    semv s' = semv s /\ pcs s' = pcs s /\ idx s' = idx s /\ pwd s' = pwd s /\ adj s' = adj s /\
+    (forall t, holder (pcs s t) = true -> semv s' = 0%nat /\ holder (pcs s' t) = true).
+Proof.
+  cbv zeta. eexists. split; [reflexivity|]. cbn [semv pcs idx pwd adj passwd_init]. repeat split; try assumption.
+  destruct (sem_counter sch) as (_ & H0 & _). exact (H0 t H).
+Qed.
+
+(* process p goes away in any reachable state: its calls stop where they are ([kill]), the others and both tables are
+   untouched; if the call inside the lock (if any) was one of p's, the semaphore is free afterwards (1), if it belongs
+   to another process the semaphore stays taken (0) *)
+Theorem process_exit sch p :
+  let s := run c sch (init_st init) in let s' := run c (sch ++ [Die p]) (init_st init) in
+  (forall t, proc c t = p -> pcs s' t = kill (pcs s t)) /\
+  (forall t, proc c t <> p -> pcs s' t = pcs s t) /\
+  idx s' = idx s /\ pwd s' = pwd s /\
+  ((forall t, holder (pcs s t) = true -> proc c t = p) -> semv s' = 1%nat) /\
+  (forall t, holder (pcs s t) = true -> proc c t <> p -> semv s' = 0%nat).
+Proof.
+  cbv zeta. pose proof (sem_counter (sch ++ [Die p])) as Hc. cbv zeta in Hc. destruct Hc as (_ & Hc0 & Hc1 & _).
+  rewrite run_snoc in *. unfold step_skip in *. cbn [step step_die] in *. cbn [pcs idx pwd semv] in *.
+  set (s := run c sch (init_st init)) in *.
+  assert (Hin : forall t, proc c t = p -> (if Nat.eqb (proc c t) p then kill (pcs s t) else pcs s t) = kill (pcs s t)).
+  { intros t E. rewrite E, Nat.eqb_refl. reflexivity. }
+  assert (Hout : forall t, proc c t <> p -> (if Nat.eqb (proc c t) p then kill (pcs s t) else pcs s t) = pcs s t).
+  { intros t N. destruct (Nat.eqb_spec (proc c t) p); [contradiction|reflexivity]. }
+  split; [exact Hin|]. split; [exact Hout|]. split; [reflexivity|]. split; [reflexivity|]. split.
+  - intros Hall. apply Hc1. intros t. destruct (Nat.eq_dec (proc c t) p) as [E|N].
+    + rewrite (Hin t E). apply kill_holder.
+    + rewrite (Hout t N). destruct (holder (pcs s t)) eqn:Eh; [|reflexivity]. exfalso. exact (N (Hall t Eh)).
+  - intros t Ht N. apply (Hc0 t). rewrite (Hout t N). exact Ht.
+Qed.
+
+(* a slot is owned by at most one call, counting the calls that lost their process after writing the index *)
+Theorem distinct_owners sch t t' k : let s := run c sch (init_st init) in
+  owned (pcs s t) = Some k -> owned (pcs s t') = Some k -> t = t'.
+Proof. cbv zeta. apply (I_one _ (reachable_inv sch)). Qed.
+
+Definition settled (s : st) : Prop := forall t, pcs s t = PCheck \/ finished (pcs s t) = true \/ dead (pcs s t) = true.
+
+(* when every call has returned or lost its process: the semaphore is free; the index and .PASSWDS agree on every slot
+   except one whose writer lost its process between the two writes; and every slot holds either what it held before
+   or the id of the one call - returned with success, or gone after writing - that was given it *)
+Theorem settled_agrees sch : let s := run c sch (init_st init) in settled s ->
+  semv s = 1%nat /\ sem s = None /\
+  forall k, ((forall t, pcs s t <> PDeadW k) -> pwd s k = idx s k) /\
+    ((exists t, (pcs s t = PDoneOk k \/ pcs s t = PDeadOk k \/ pcs s t = PDeadW k) /\ idx s k = uid c t /\ init k = []) \/
+     ((forall t, owned (pcs s t) <> Some k) /\ idx s k = init k)).
+Proof.
+  cbv zeta. intros Q. pose proof (reachable_inv sch) as I. pose proof (sem_counter sch) as Hc. cbv zeta in Hc.
+  set (s := run c sch (init_st init)) in *.
+  assert (Hn : forall t, holder (pcs s t) = false).
+  { intros t. destruct (Q t) as [H|[H|H]]; [rewrite H; reflexivity| |]; destruct (pcs s t); try discriminate; reflexivity. }
+  split; [destruct Hc as (_ & _ & Hc1 & _); exact (Hc1 Hn)|]. split.
+  { destruct (sem s) as [o|] eqn:E; [|reflexivity]. apply (I_sem _ I) in E. rewrite Hn in E. discriminate. }
+  intros k. split.
+  - intros Hw. apply (I_pwd _ I). intros t E. destruct (Q t) as [H|[H|H]]; [rewrite H in E; discriminate| |];
+      destruct (pcs s t) eqn:Ept; try discriminate. cbn in E. inversion E; subst. exact (Hw t Ept).
+  - destruct (I_frame _ I k) as [[t H0]|H0].
+    + left. exists t. destruct (I_own _ I t k H0) as (_ & H2 & H3). split; [|split; assumption].
+      destruct (Q t) as [H|[H|H]]; [rewrite H in H0; discriminate| |];
+        destruct (pcs s t) eqn:Ept; try discriminate; cbn in H0; inversion H0; subst; tauto.
+    + right. split; [|exact H0]. intros t E.
+      destruct (I_own _ I t k E) as (_ & H2 & H3). apply (Hids t). congruence.
 Qed.
 
 (* ------------------------------------------------------------------ with the lookup repeated inside the lock *)
@@ -369,8 +553,10 @@ Proof.
   intros [I UT UP] Hstep. pose proof (step_inv s a s' I Hstep) as I'.
   constructor; [exact I'| |]; clear I'.
   - (* the table stays duplicate-free *)
-    destruct a as [t|t]; cbn [step] in Hstep.
+    destruct a as [t|t|p|p]; cbn [step] in Hstep.
     2:{ unfold step_intr in Hstep. destruct (pcs s t); try discriminate. inversion Hstep; subst. exact UT. }
+    2:{ unfold step_join in Hstep. inversion Hstep; subst. exact UT. }
+    2:{ unfold step_die in Hstep. inversion Hstep; subst. exact UT. }
     unfold step_thread in Hstep. destruct (pcs s t) eqn:Ept.
     + destruct (exists_id _ _ _); inversion Hstep; subst; exact UT.
     + destruct (semv s); [discriminate|]. inversion Hstep; subst; exact UT.
@@ -389,11 +575,17 @@ Proof.
     + inversion Hstep; subst; exact UT.
     + discriminate.
     + discriminate.
+    + discriminate.
+    + discriminate.
+    + discriminate.
   - (* a thread past the lookup inside the lock still sees no such id *)
-    destruct a as [t|t]; cbn [step] in Hstep.
+    destruct a as [t|t|p|p]; cbn [step] in Hstep.
     2:{ unfold step_intr in Hstep. destruct (pcs s t) eqn:Ept; try discriminate. inversion Hstep; subst.
         cbn [pcs idx set_pc]. intros t0. destruct (Nat.eq_dec t0 t) as [->|N];
           [rewrite updf_same; discriminate|rewrite updf_other by assumption; apply UP]. }
+    2:{ unfold step_join in Hstep. inversion Hstep; subst. exact UP. }
+    2:{ unfold step_die in Hstep. inversion Hstep; subst. cbn [pcs idx]. intros t0.
+        destruct (Nat.eqb (proc c t0) p); [rewrite kill_passed; discriminate|apply UP]. }
     unfold step_thread in Hstep. destruct (pcs s t) eqn:Ept.
     + destruct (exists_id _ _ _); inversion Hstep; subst; cbn [pcs idx set_pc]; intros t0;
         (destruct (Nat.eq_dec t0 t) as [->|N]; [rewrite updf_same; discriminate|rewrite updf_other by assumption; apply UP]).
@@ -415,6 +607,9 @@ Proof.
       destruct (Nat.eq_dec t0 t) as [->|N]; [rewrite updf_same; discriminate|rewrite updf_other by assumption; apply UP].
     + inversion Hstep; subst; cbn [pcs idx]. intros t0.
       destruct (Nat.eq_dec t0 t) as [->|N]; [rewrite updf_same; discriminate|rewrite updf_other by assumption; apply UP].
+    + discriminate.
+    + discriminate.
+    + discriminate.
     + discriminate.
     + discriminate.
 Qed.
@@ -473,8 +668,8 @@ End Registrations.
 Definition id_ab : list Z := [97; 98].
 Definition id_AB : list Z := [65; 66].
 Definition tab4 : nat -> list Z := fun k => match k with O => [83; 89; 83; 79; 80] | _ => [] end.   (* SYSOP + free slots *)
-Definition cfg_same (r : bool) : cfg := mkCfg 4 r (fun _ => id_ab).
-Definition cfg_twin (r : bool) : cfg := mkCfg 4 r (fun t => match t with O => id_ab | _ => id_AB end).
+Definition cfg_same (r : bool) : cfg := mkCfg 4 r (fun _ => id_ab) (fun _ => 0%nat).
+Definition cfg_twin (r : bool) : cfg := mkCfg 4 r (fun t => match t with O => id_ab | _ => id_AB end) (fun _ => 0%nat).
 (* A.Check, B.Check, A.Lock .. A.Unlock, B.Lock .. B.Unlock *)
 Definition witness : list act :=
   [Step 0; Step 1; Step 0; Step 0; Step 0; Step 0; Step 0; Step 1; Step 1; Step 1; Step 1; Step 1]%nat.
@@ -529,7 +724,7 @@ Proof. vm_compute. reflexivity. Qed.
    and table; the marks read 1 (fresh), 0 (thread 0 inside), 0 (thread 1 inside, about to be refused), 1 (after the
    refusal: the single deferred unlock), 0 (thread 2 inside, thread 3 waiting), 0 (thread 3 inside), 1 (quiescent) *)
 Definition cfg_two_phase : cfg :=
-  mkCfg 4 true (fun t => match t with O | S O => id_ab | S (S O) => [99] | _ => [100] end).
+  mkCfg 4 true (fun t => match t with O | S O => id_ab | S (S O) => [99] | _ => [100] end) (fun t => t).
 Example ex_two_phase_counter :
   match replay_obs cfg_two_phase
     [OBS; 0; 1; 0; OBS; 0; 0; 0; 0; 0; 1; OBS; 1; 1; OBS;
@@ -540,7 +735,7 @@ Example ex_two_phase_counter :
   end.
 Proof. vm_compute. reflexivity. Qed.
 (* refusal inside the lock because no slot is free: the counter is back at 1 as well *)
-Example ex_noslot_counter : let c := mkCfg 1 true (fun t => [97; 48 + Z.of_nat t]) in
+Example ex_noslot_counter : let c := mkCfg 1 true (fun t => [97; 48 + Z.of_nat t]) (fun _ => 0%nat) in
   match replay_obs c [0; 0; 0; OBS; 0; 0; OBS] (init_st tab4) with
   | Some (s, o) => (o, semv s, pcs s 0%nat) = ([0; 1], 1%nat, PDoneErr E_NOSLOT)
   | None => False
@@ -550,14 +745,60 @@ Proof. vm_compute. reflexivity. Qed.
    is 2 — a semaphore that was posted once too often — two registrations of different ids are inside the critical
    section together and are given the SAME slot; the index keeps one of the two ids *)
 Example ex_counter_2_shares_slot :
-  let c := mkCfg 4 true (fun t => match t with O => [99] | _ => [100] end) in
+  let c := mkCfg 4 true (fun t => match t with O => [99] | _ => [100] end) (fun t => t) in
   let s := run c [Step 0; Step 1; Step 0; Step 1; Step 0; Step 1; Step 0; Step 1; Step 0; Step 1; Step 0; Step 1; Step 0; Step 1]%nat
-               (mkSt (fun _ => PCheck) None 2%nat tab4 tab4) in
+               (mkSt (fun _ => PCheck) None 2%nat tab4 tab4 (fun _ => 0)) in
   (pcs s 0%nat, pcs s 1%nat, idx s 1%nat, semv s) = (PDoneOk 1, PDoneOk 1, [100], 2%nat).
 Proof. vm_compute. reflexivity. Qed.
 (* three threads, different ids, one interrupted wait *)
-Example ex_three : let c := mkCfg 3 true (fun t => [97; 98; 48 + Z.of_nat t]) in
+Example ex_three : let c := mkCfg 3 true (fun t => [97; 98; 48 + Z.of_nat t]) (fun t => t) in
   let s := run c [Step 0; Step 1; Step 2; Step 0; Intr 1; Step 2; Step 0; Step 0; Step 0; Step 0; Step 0;
                   Step 2; Step 2; Step 2; Step 2; Step 2; Step 2]%nat (init_st tab4) in
   (pcs s 0%nat, pcs s 1%nat, pcs s 2%nat, sem s) = (PDoneOk 1, PDoneErr E_INTR, PDoneOk 2, None).
+Proof. vm_compute. reflexivity. Qed.
+
+(* ------------------------------------------------------------------ processes joining and going away: examples *)
+(* thread t runs in process t *)
+Definition cfg_procs : cfg := mkCfg 4 true (fun t => match t with O => [99] | _ => [100] end) (fun t => t).
+(* process 1 starts (PasswdInit, attach path) while thread 0 of process 0 is inside the lock, between its slot search and
+   its write; then thread 1 (process 1) registers another id: it has to wait, and gets the next slot. Readings: fresh 1,
+   held 0, after the join 0, after thread 0 returned 1, at the end 1 *)
+Example ex_join_while_held :
+  match replay_obs cfg_procs [OBS; 0; 0; 0; 0; OBS; JOINZ + 1; OBS; 1; 0; 0; 0; OBS; 1; 1; 1; 1; 1; 1; OBS] (init_st tab4) with
+  | Some (s, o) => (o, pcs s 0%nat, pcs s 1%nat, idx s 1%nat, idx s 2%nat) = ([1; 0; 0; 1; 1], PDoneOk 1, PDoneOk 2, [99], [100])
+  | None => False
+  end.
+Proof. vm_compute. reflexivity. Qed.
+(* with the step [1] before thread 0 has returned the replay is refused: thread 1 is blocked in semop *)
+Example ex_join_does_not_open_the_lock :
+  replay_obs cfg_procs [0; 0; 0; 0; JOINZ + 1; 1; 1] (init_st tab4) = None.
+Proof. vm_compute. reflexivity. Qed.
+(* what a start-up that "repairs" a semaphore it finds at 0 would do (SETVAL 1 while thread 0 is inside): thread 1 enters
+   too, both are given slot 1, the index keeps one id, and the value ends at 2 *)
+Example ex_rearm_shares_slot :
+  let s0 := run cfg_procs [Step 0; Step 0; Step 0; Step 0]%nat (init_st tab4) in
+  let s1 := mkSt (pcs s0) (sem s0) 1%nat (idx s0) (pwd s0) (adj s0) in
+  let s := run cfg_procs [Step 1; Step 1; Step 1; Step 1; Step 0; Step 0; Step 0; Step 1; Step 1; Step 1]%nat s1 in
+  (semv s0, pcs s 0%nat, pcs s 1%nat, idx s 1%nat, idx s 2%nat, semv s) = (0%nat, PDoneOk 1, PDoneOk 1, [100], [], 2%nat).
+Proof. vm_compute. reflexivity. Qed.
+(* process 0 goes away while its thread 0 holds the lock after both writes and thread 1 (process 1) waits: the
+   kernel's adjustment frees the semaphore (0 -> 1), thread 1 gets it and the next slot; the dead call's account stays *)
+Example ex_die_holder_with_waiter :
+  match replay_obs cfg_procs [0; 0; 0; 0; 0; 0; 1; OBS; DIEZ + 0; OBS; 1; OBS; 1; 1; 1; 1; 1; OBS] (init_st tab4) with
+  | Some (s, o) => (o, pcs s 0%nat, pcs s 1%nat, idx s 1%nat, pwd s 1%nat, idx s 2%nat, adj s 0%nat, adj s 1%nat)
+                   = ([0; 1; 0; 1], PDeadOk 1, PDoneOk 2, [99], [99], [100], 0, 0)
+  | None => False
+  end.
+Proof. vm_compute. reflexivity. Qed.
+(* the waiter's process goes away instead: the semaphore stays taken; later the holder returns and it is free *)
+Example ex_die_waiter :
+  match replay_obs cfg_procs [0; 0; 0; 1; OBS; DIEZ + 1; OBS; 0; 0; 0; 0; OBS] (init_st tab4) with
+  | Some (s, o) => (o, pcs s 0%nat, pcs s 1%nat) = ([0; 0; 1], PDoneOk 1, PDead)
+  | None => False
+  end.
+Proof. vm_compute. reflexivity. Qed.
+(* a process that goes away between SetUserID and the record write leaves the one disagreement [settled_agrees] allows *)
+Example ex_die_between_writes :
+  let s := run cfg_procs [Step 0; Step 0; Step 0; Step 0; Step 0; Die 0]%nat (init_st tab4) in
+  (pcs s 0%nat, idx s 1%nat, pwd s 1%nat, semv s) = (PDeadW 1, [99], [], 1%nat).
 Proof. vm_compute. reflexivity. Qed.
